@@ -417,7 +417,7 @@ class SetUseCapsSelectionAllLengths(FunctionContract):
 
         def inv(v):
             u = v.polygon.use_caps
-            ix = getattr(v, "__ix0")
+            ix = next(val for nm, val in vars(v).items() if nm.startswith("__ix"))   # position in index_list (the only cut sequence loop)
             return [u >= 0, S.iff(self._bit(u, b), self._want(ix, old, b, idx))]
         return {"index_list": dict(inv=inv, fresh={"polygon.use_caps": lambda obj, v: sym_pyint("use_caps")})}
 
